@@ -366,8 +366,7 @@ def check(ctx):
             st = after
             for cl in calls_at(an_.g, n):
                 if call_attr(cl) == 'add_datapoint' and cl.args and isinstance(cl.args[0], ast.Constant) and cl.args[0].value == 'device_failure':
-                    vals = {an_.ev(x, before, n.frame) for x in ast.walk(cl) if isinstance(x, ast.Name)}
-                    if 'p0' in vals:
+                    if dv.record_carries(an_, cl, before, n.frame, 'p0'):
                         st = st.with_flag('logged')
                 if isinstance(cl.func, ast.Name) and n.kind == 'stmt' and (n.frame.id, cl.func.id) in before.locals and len(cl.args) >= 3:
                     # a callback invocation c(self, is_failure, lost_part)
@@ -380,6 +379,7 @@ def check(ctx):
                                        for s_ in n.ast.body for x in ast.walk(s_)) and '_shutdown_callbacks' in ast.unparse(n.ast.iter):
                 st = st.with_flag('cb-loop')
             return st
+        an.expr_hooks.append(dv.id_of_token)
         an.node_hooks.append(fail_hook)
         for sd in 'TF':
             for ov in ('N', 'o0'):
